@@ -24,232 +24,153 @@ func init() {
 	register("TRACKCOUNT", "the --track value reaches the track-set constructor; WriteTo serialises every track 0..Len()-1, propagates Add's error and uses the writer's clock as the header division", 2, ruleTrackCount)
 }
 
-type emitSite struct {
-	call   ssa.CallInstruction
-	via    string
-	delta  ssa.Value
-	track  ssa.Value
-	opType string
-	fields map[string]ssa.Value
-}
-
-// opLiteral: an OpFunc interface value made from a freshly allocated struct: returns its type name and field stores.
-func opLiteral(v ssa.Value) (string, map[string]ssa.Value) {
-	mi, ok := v.(*ssa.MakeInterface)
-	if !ok {
-		return "", nil
-	}
-	alloc, ok := mi.X.(*ssa.Alloc)
-	if !ok {
-		return typeName(mi.X.Type()), nil
-	}
-	fields := map[string]ssa.Value{}
-	for _, r := range *alloc.Referrers() {
-		if fa, ok := r.(*ssa.FieldAddr); ok {
-			n, _, _ := fieldName(fa)
-			for _, rr := range *fa.Referrers() {
-				if st, ok := rr.(*ssa.Store); ok {
-					fields[n] = st.Val
-				}
-			}
-		}
-	}
-	return typeName(alloc.Type()), fields
-}
-
-func emitSites(fn *ssa.Function) []*emitSite {
-	var out []*emitSite
-	for _, ci := range callsIn(fn) {
-		n := calleeName(ci.Common())
-		a := ci.Common().Args
-		var s *emitSite
-		switch n {
-		case "midix.MIDIWriter.addMeta":
-			s = &emitSite{call: ci, via: "addMeta", delta: a[1]}
-			s.opType, s.fields = opLiteral(a[2])
-		case "midix.MIDIWriter.addAll":
-			s = &emitSite{call: ci, via: "addAll", delta: a[1]}
-			s.opType, s.fields = opLiteral(a[2])
-		case "midix.MIDIWriter.addFixed":
-			s = &emitSite{call: ci, via: "addFixed", delta: a[1], track: a[2]}
-			s.opType, s.fields = opLiteral(a[3])
-		case "midix.MIDIWriter.add", "midix.TrackSetController.Add", "midix.TrackSetController.Distribute", "midix.TrackSet.Add":
-			s = &emitSite{call: ci, via: strings.TrimPrefix(n, "midix.")}
-		}
-		if s != nil {
-			out = append(out, s)
-		}
-	}
-	return out
-}
-
-func isCallTo(v ssa.Value, name string) (*ssa.Call, bool) {
-	if call, ok := v.(*ssa.Call); ok && calleeName(&call.Call) == name {
-		return call, true
-	}
-	return nil, false
-}
-
 // ---------------------------------------------------------------------------
 // PENDING
 
-func rulePending(c *Ctx) {
-	helpers := map[string]bool{"add": true, "addMeta": true, "addFixed": true, "addAll": true, "init": true, "getTickDeltaAndClear": true, "addTickDelta": true, "newTicks": true, "WriteTo": true}
-	sp := c.ssapkg("midix")
-	if sp == nil {
-		c.missing("midix")
-		return
+func (m *writerModel) exportedMethods() []*ssa.Function {
+	var out []*ssa.Function
+	for _, fn := range m.methods {
+		if fn.Object() != nil && fn.Object().Exported() && fn.Synthetic == "" {
+			out = append(out, fn)
+		}
 	}
-	tn, _ := sp.Pkg.Scope().Lookup("MIDIWriter").(*types.TypeName)
-	if tn == nil {
+	sort.Slice(out, func(i, j int) bool { return out[i].Name() < out[j].Name() })
+	return out
+}
+
+// convOfParam: the located value is value->ticks(conversion role) applied to the root's parameter with the given index.
+func (m *writerModel) convOfParam(l lval, root *ssa.Function, idx int) bool {
+	l = m.tr.trace(l)
+	if !m.isRole(m.conv, l.v) {
+		return false
+	}
+	call := l.v.(*ssa.Call)
+	a := m.tr.trace(l.with(call.Call.Args[len(call.Call.Args)-1]))
+	return len(a.chain) == 0 && idx < len(root.Params) && a.v == ssa.Value(root.Params[idx])
+}
+
+func rulePending(c *Ctx) {
+	m := c.writerModel()
+	if m.typ == nil {
 		c.missing("midix.MIDIWriter")
 		return
 	}
-	ms := c.Prog.MethodSets.MethodSet(types.NewPointer(tn.Type()))
-	for i := 0; i < ms.Len(); i++ {
-		fn := c.Prog.FuncValue(ms.At(i).Obj().(*types.Func))
-		if fn == nil || len(fn.Blocks) == 0 || helpers[fn.Name()] || fn.Synthetic != "" {
+	pos := c.pos(m.typ.Pos())
+	c.site(1)
+	c.check(len(m.take) >= 1 && len(m.problems) == 0, "midix.MIDIWriter|take-pending", pos, "midix.MIDIWriter", "a method returns the pending delta and clears it ("+strings.Join(roleNames(m.take), ",")+")", "no MIDIWriter method returns the pending delta and resets it to 0 any more: rests are counted twice or never "+strings.Join(m.problems, "; "))
+	c.site(1)
+	c.check(len(m.accum) >= 1, "midix.MIDIWriter|add-pending", pos, "midix.MIDIWriter", "a method adds its argument to the pending delta ("+strings.Join(roleNames(m.accum), ",")+")", "no MIDIWriter method adds its argument to the pending delta any more (pending += t)")
+	roots := m.exportedMethods()
+	if nw := c.fn("midix", "NewWriter"); nw != nil {
+		roots = append(roots, nw)
+	} else {
+		c.missing("midix.NewWriter")
+	}
+	for _, fn := range roots {
+		name := fname(fn)
+		ems, probs := m.emissions(fn)
+		calls := m.region(fn)
+		takes := m.roleCalls(calls, m.take)
+		accs := m.roleCalls(calls, m.accum)
+		if fn.Name() == "Rest" {
+			c.site(1)
+			good := len(ems) == 0 && len(probs) == 0 && len(takes) == 0 && len(accs) == 1
+			if good {
+				a := accs[0].call.Common().Args
+				good = m.convOfParam(lval{a[len(a)-1], accs[0].fn, accs[0].chain}, fn, 1) && !inLoopAnyLevel(linstr{accs[0].call, accs[0].chain})
+			}
+			c.check(good, name, c.pos(fn.Pos()), name, "emits nothing, adds ticks(value) to the pending delta", "Rest must emit no event and add exactly ticks(value) to the pending delta; it no longer does (rest time is lost, doubled or turned into events)")
 			continue
 		}
-		name := fname(fn)
-		sites := emitSites(fn)
-		if fn.Name() == "Rest" || len(sites) == 0 {
-			// must only accumulate: addTickDelta(newTicks(param))
-			c.site(1)
-			adds := callsTo(fn, "midix.MIDIWriter.addTickDelta")
-			good := len(sites) == 0 && len(adds) == 1
-			if good {
-				nt, ok := isCallTo(adds[0].Common().Args[1], "midix.MIDIWriter.newTicks")
-				good = ok && len(fn.Params) > 1 && nt.Call.Args[1] == ssa.Value(fn.Params[1])
-			}
-			if fn.Name() == "Rest" {
-				c.check(good, name, c.pos(fn.Pos()), name, "emits nothing, adds newTicks(value) to the pending delta", "Rest must emit no event and add exactly newTicks(value) to the pending delta; it no longer does (rest time is lost, doubled or turned into events)")
-			} else if len(callsTo(fn, "midix.MIDIWriter.getTickDeltaAndClear")) > 0 {
+		if len(ems) == 0 && len(probs) == 0 {
+			if len(takes) > 0 {
+				c.site(1)
 				c.bad(name, c.pos(fn.Pos()), name, "consumes the pending delta without emitting an event: the elapsed rest time is lost")
 			}
 			continue
 		}
 		c.site(1)
-		gets := callsTo(fn, "midix.MIDIWriter.getTickDeltaAndClear")
-		if len(gets) != 1 {
-			c.bad(name, c.pos(fn.Pos()), name, fmt.Sprintf("emits events but calls getTickDeltaAndClear %d times (want exactly once): the time elapsed since the previous event (pending rests) is not attached to this event, so it and everything after it on the track lands early", len(gets)))
+		if fn.Name() == "NewWriter" {
+			// set-up events: all at time 0, none consumes pending time
+			problem := strings.Join(probs, "; ")
+			for _, e := range ems {
+				if k, ok := constInt(e.delta.v); e.delta.v == nil || !ok || k != 0 {
+					problem = "a set-up event (track name / instrument / program) does not have delta 0"
+				}
+			}
+			if len(takes) > 0 {
+				problem = "the constructor consumes the pending delta"
+			}
+			c.check(problem == "", name, c.pos(fn.Pos()), name, fmt.Sprintf("%d set-up event(s), all at delta 0", len(ems)), name+": "+problem)
 			continue
 		}
-		get := gets[0].(*ssa.Call)
+		problem := strings.Join(probs, "; ")
+		if len(takes) != 1 {
+			c.bad(name, c.pos(fn.Pos()), name, fmt.Sprintf("emits events but takes the pending delta %d times (want exactly once): the time elapsed since the previous event (pending rests) is not attached to this event, so it and everything after it on the track lands early", len(takes)))
+			continue
+		}
+		take := linstr{takes[0].call, takes[0].chain}
+		if inLoopAnyLevel(take) {
+			problem = "the pending delta is taken inside a loop"
+		}
 		usesPending := false
-		problem := ""
-		for _, s := range sites {
-			if s.delta == nil {
-				problem = "emits through " + s.via + " directly, bypassing the delta helpers"
+		for _, e := range ems {
+			if e.delta.v == nil {
+				problem = "an op's delta cannot be resolved"
 				break
 			}
-			if !dominatesInstr(get, s.call) {
+			if !regionDominates(take, e.sink) {
 				problem = "an event is emitted before the pending delta is consumed"
 				break
 			}
-			for _, leaf := range phiLeaves(s.delta) {
-				if leaf == ssa.Value(get) {
+			var leaves []lval
+			for _, a := range m.tr.alts(e.delta, 0) {
+				if phi, ok := a.leaf.v.(*ssa.Phi); ok && isLoopHeader(phi.Block()) {
+					for _, ed := range phi.Edges {
+						leaves = append(leaves, m.tr.trace(a.leaf.with(ed)))
+					}
+					continue
+				}
+				leaves = append(leaves, a.leaf)
+			}
+			for _, leaf := range leaves {
+				if leaf.v == takes[0].call.Value() && sameChain(leaf.chain, takes[0].chain) {
 					usesPending = true
 					continue
 				}
-				if k, ok := constInt(leaf); ok && k == 0 {
+				if k, ok := constInt(leaf.v); ok && k == 0 {
 					continue
 				}
-				if _, ok := isCallTo(leaf, "midix.MIDIWriter.newTicks"); ok {
+				if m.isRole(m.conv, leaf.v) {
 					continue
 				}
-				problem = "an op's delta is neither the pending delta, 0 nor newTicks(value)"
+				problem = "an op's delta is neither the pending delta, 0 nor ticks(value)"
 			}
 		}
 		if problem == "" && !usesPending {
 			problem = "no emitted op carries the pending delta"
 		}
-		c.check(problem == "", name, c.pos(fn.Pos()), name, fmt.Sprintf("%d emission(s); first carries getTickDeltaAndClear()", len(sites)), name+": "+problem+" — events no longer land at the instance start / the track clock drifts")
+		c.check(problem == "", name, c.pos(fn.Pos()), name, fmt.Sprintf("%d emission(s); first carries the pending delta", len(ems)), name+": "+problem+" — events no longer land at the instance start / the track clock drifts")
 	}
-	// helper wiring
-	type wiring struct {
-		fn, ctor, typeCtor, sink string
-		typeArg                  int // parameter index passed to the type constructor, -1 none
+}
+
+func roleNames(set map[*ssa.Function]bool) []string {
+	var out []string
+	for f := range set {
+		out = append(out, f.Name())
 	}
-	for _, w := range []wiring{
-		{"MIDIWriter.addMeta", "midix.NewTrackOp", "midix.NewMetaTrack", "midix.MIDIWriter.add", -1},
-		{"MIDIWriter.addFixed", "midix.NewTrackOp", "midix.NewFixedTrack", "midix.MIDIWriter.add", 2},
-		{"MIDIWriter.addAll", "midix.NewTrackOp", "midix.NewMetaTrack", "midix.TrackSetController.Distribute", -1},
-	} {
-		fn := c.fn("midix", w.fn)
-		if fn == nil {
-			c.missing("midix." + w.fn)
-			continue
+	sort.Strings(out)
+	return out
+}
+
+// inLoopAnyLevel: the located instruction (or a call site leading to it) sits in a loop.
+func inLoopAnyLevel(li linstr) bool {
+	for k := 0; k <= len(li.chain); k++ {
+		if inLoop(li.at(k).Block()) {
+			return true
 		}
-		c.site(1)
-		name := fname(fn)
-		ctors := callsTo(fn, w.ctor)
-		sinks := callsTo(fn, w.sink)
-		good := len(ctors) == 1 && len(sinks) == 1
-		why := "shape changed"
-		if good {
-			ct := ctors[0].(*ssa.Call)
-			a := ct.Call.Args
-			// delta passes through, op func passes through
-			opIdx := len(fn.Params) - 1
-			good = a[0] == ssa.Value(fn.Params[1]) && stripConv(a[2]) == ssa.Value(fn.Params[opIdx])
-			why = "the delta or the op parameter is not passed through unchanged"
-			if good {
-				tc, ok := stripConv(a[1]).(*ssa.Call)
-				good = ok && calleeName(&tc.Call) == w.typeCtor
-				why = "the op is not typed with " + w.typeCtor
-				if good && w.typeArg >= 0 {
-					good = tc.Call.Args[0] == ssa.Value(fn.Params[w.typeArg])
-					why = "the track number parameter is not passed to NewFixedTrack"
-				}
-			}
-			if good {
-				sa := sinks[0].Common().Args
-				good = sa[len(sa)-1] == ssa.Value(ct)
-				why = "the constructed op is not the one handed on"
-			}
-		}
-		c.check(good, name, c.pos(fn.Pos()), name, "passes delta, track and op through unchanged", name+": "+why)
 	}
-	if fn := c.fn("midix", "MIDIWriter.add"); fn != nil {
-		c.site(1)
-		calls := callsTo(fn, "midix.TrackSetController.Add")
-		c.check(len(calls) == 1 && calls[0].Common().Args[1] == ssa.Value(fn.Params[1]), fname(fn), c.pos(fn.Pos()), fname(fn), "hands the op to the track set", "add no longer hands its op to TrackSetController.Add")
-	}
-	// getTickDeltaAndClear: returns the field and stores 0; addTickDelta: field += t
-	if fn := c.fn("midix", "MIDIWriter.getTickDeltaAndClear"); fn != nil {
-		c.site(1)
-		rets := returnsOf(fn)
-		good := len(rets) == 1
-		if good {
-			n, _, ok := loadedField(rets[0].Results[0])
-			good = ok && n == "tickDelta"
-		}
-		zero := false
-		allInstrs(fn, func(in ssa.Instruction) {
-			if st, ok := in.(*ssa.Store); ok {
-				if n, _, ok := fieldName(st.Addr); ok && n == "tickDelta" {
-					if k, ok := constInt(st.Val); ok && k == 0 {
-						zero = true
-					}
-				}
-			}
-		})
-		c.check(good && zero, fname(fn), c.pos(fn.Pos()), fname(fn), "returns the pending delta and clears it", "getTickDeltaAndClear no longer returns the pending delta and resets it to 0")
-	}
-	if fn := c.fn("midix", "MIDIWriter.addTickDelta"); fn != nil {
-		c.site(1)
-		good := false
-		allInstrs(fn, func(in ssa.Instruction) {
-			if st, ok := in.(*ssa.Store); ok {
-				if n, _, ok := fieldName(st.Addr); ok && n == "tickDelta" {
-					af := c.affine(fn, st.Val)
-					good = af.equal(map[string]int64{"p0.tickDelta": 1, "p1": 1}, 0)
-				}
-			}
-		})
-		c.check(good, fname(fn), c.pos(fn.Pos()), fname(fn), "pending += t", "addTickDelta no longer adds its argument to the pending delta")
-	}
+	return false
 }
 
 // ---------------------------------------------------------------------------
@@ -549,8 +470,9 @@ func pathsSiteCount(l *loopInfo, siteBlocks map[*ssa.BasicBlock]int) (int, int) 
 }
 
 func ruleNote(c *Ctx) {
+	m := c.writerModel()
 	fn := c.fn("midix", "MIDIWriter.Note")
-	if fn == nil {
+	if fn == nil || m.typ == nil {
 		c.missing("midix.MIDIWriter.Note")
 		return
 	}
@@ -558,140 +480,222 @@ func ruleNote(c *Ctx) {
 	name := fname(fn)
 	keyParam := fn.Params[len(fn.Params)-1]
 	velParam := fn.Params[2]
-	sites := emitSites(fn)
-	var ons, offs []*emitSite
-	for _, s := range sites {
-		switch s.opType {
+	ems, eprobs := m.emissions(fn)
+	for _, p := range eprobs {
+		c.bad(name+"|other-op", c.pos(fn.Pos()), name, "Note: "+p)
+	}
+	takes := m.roleCalls(m.region(fn), m.take)
+	var ons, offs []*emission
+	for _, e := range ems {
+		switch e.opType {
 		case "midix.NoteOn":
-			ons = append(ons, s)
+			ons = append(ons, e)
 		case "midix.NoteOff":
-			offs = append(offs, s)
+			offs = append(offs, e)
 		default:
-			c.bad(name+"|other-op", c.pos(s.call.Pos()), name, "Note emits something that is neither NoteOn nor NoteOff ("+s.opType+")")
+			c.bad(name+"|other-op", c.pos(e.sink.in.Pos()), name, "Note emits something that is neither NoteOn nor NoteOff ("+e.opType+")")
 		}
 	}
 	if len(ons) == 0 || len(offs) == 0 {
 		c.bad(name+"|pairing", c.pos(fn.Pos()), name, fmt.Sprintf("Note emits %d NoteOn and %d NoteOff sites: notes are not struck or never released", len(ons), len(offs)))
 		return
 	}
-	var firstValue = map[string]string{"midix.NoteOn": "midix.MIDIWriter.getTickDeltaAndClear", "midix.NoteOff": "midix.MIDIWriter.newTicks"}
-	checkPhase := func(label string, ss []*emitSite) *loopInfo {
-		var loop *loopInfo
+	isRootParam := func(l lval, p *ssa.Parameter) bool {
+		l = m.tr.trace(l)
+		return len(l.chain) == 0 && l.v == ssa.Value(p)
+	}
+	firstName := map[string]string{"NoteOn": "the pending delta", "NoteOff": "ticks(value)"}
+	type phase struct {
+		loop  *loopInfo
+		level int
+		sink  linstr
+	}
+	checkPhase := func(label string, ss []*emission) *phase {
+		var ph *phase
 		siteBlocks := map[*ssa.BasicBlock]int{}
 		problems := []string{}
-		for _, s := range ss {
-			l := enclosingRangeLoop(s.call.Block())
-			if l == nil {
+		isFirst := func(l lval) bool {
+			if label == "NoteOn" {
+				return len(takes) == 1 && l.v == takes[0].call.Value() && sameChain(l.chain, takes[0].chain)
+			}
+			return m.convOfParam(l, fn, 1)
+		}
+		for _, e := range ss {
+			var loop *loopInfo
+			level := -1
+			for k := len(e.sink.chain); k >= 0; k-- {
+				if l := enclosingRangeLoop(e.sink.at(k).Block()); l != nil {
+					loop, level = l, k
+					break
+				}
+			}
+			if loop == nil {
 				problems = append(problems, label+" is emitted outside a loop over the keys")
 				continue
 			}
-			if loop == nil {
-				loop = l
-			} else if loop.header != l.header {
+			loc := lval{nil, e.sink.at(level).Parent(), e.sink.chain[:level]}
+			if ph == nil {
+				ph = &phase{loop, level, e.sink}
+			} else if ph.loop.header != loop.header || !sameChain(loc.chain, ph.sink.chain[:ph.level]) {
 				problems = append(problems, label+" sites are spread over two loops")
 			}
-			siteBlocks[s.call.Block()]++
+			siteBlocks[e.sink.at(level).Block()]++
+			if e.kind != "one" || e.typKind != "midix.FixedTrack" {
+				problems = append(problems, label+" is not a fixed-track op handed to TrackSetController.Add (it would land on the meta track or on every track)")
+			}
 			// key field: element of the key parameter at the loop index
-			kv := s.fields["Key"]
-			ia := indexOfLoad(kv)
+			kv, hasKey := e.fields["Key"]
+			var ia *ssa.IndexAddr
+			if hasKey {
+				ia = indexOfLoad(kv.v)
+			}
 			switch {
 			case ia == nil:
 				problems = append(problems, label+".Key is not an element of the key slice")
-			case ia.X != ssa.Value(keyParam):
+			case !isRootParam(kv.with(ia.X), keyParam):
 				problems = append(problems, label+" ranges over something other than the whole key parameter (e.g. a sub-slice): some notes get no "+label)
-			case ia.Index != l.index:
+			case ia.Index != loop.index || !sameChain(kv.chain, loc.chain):
 				problems = append(problems, label+".Key is not key[loop index]")
 			}
-			if ch, ok := constInt(s.fields["Channel"]); !ok || ch != 0 {
+			if chv, ok := e.fields["Channel"]; !ok {
+				problems = append(problems, label+".Channel is not the constant 0")
+			} else if ch, ok := constInt(chv.v); !ok || ch != 0 {
 				problems = append(problems, label+".Channel is not the constant 0")
 			}
-			if label == "NoteOn" && s.fields["Velocity"] != ssa.Value(velParam) {
-				problems = append(problems, "NoteOn.Velocity is not the velocity parameter")
+			if label == "NoteOn" {
+				if vv, ok := e.fields["Velocity"]; !ok || !isRootParam(vv, velParam) {
+					problems = append(problems, "NoteOn.Velocity is not the velocity parameter")
+				}
 			}
-			if s.track != l.index {
+			if e.track.v != loop.index || !sameChain(e.track.chain, loc.chain) {
 				problems = append(problems, label+"'s track argument is not the loop index (on and off of one key could land on different tracks)")
 			}
-			// delta: first op (index == 0 branch) carries the time, others 0
-			isIdxZero := func(v ssa.Value) bool {
-				b, ok := v.(*ssa.BinOp)
-				if !ok || b.Op != token.EQL {
-					return false
-				}
-				z, ok := constInt(b.Y)
-				return ok && z == 0 && b.X == l.index
+			// delta: the op of iteration 0 carries the time, all others 0
+			idx := loc.with(loop.index)
+			var siteGuards []gcond
+			for k := level; k <= len(e.sink.chain); k++ {
+				in := e.sink.at(k)
+				siteGuards = append(siteGuards, guardsOf(in.Block(), lval{nil, in.Parent(), e.sink.chain[:k]})...)
 			}
-			isFirst := func(v ssa.Value) bool {
-				call, ok := v.(*ssa.Call)
-				return ok && calleeName(&call.Call) == firstValue["midix."+label]
+			if e.delta.v == nil {
+				problems = append(problems, label+" delta cannot be resolved")
+				continue
 			}
-			isFirstVal := isFirst(s.delta)
-			k, isConst := constInt(s.delta)
-			side, guarded := c.branchSide(s.call.Block(), isIdxZero)
-			// one call with a conditional delta: phi(time value on the index==0 side, 0 otherwise)
-			condDelta := false
-			if phi, ok := s.delta.(*ssa.Phi); ok && len(phi.Edges) == 2 {
-				okAll := true
-				for i, ed := range phi.Edges {
-					pred := phi.Block().Preds[i]
-					onZero := false
-					if sd, g := c.branchSide(pred, isIdxZero); g && sd {
-						onZero = true
-					} else if iff, ok := pred.Instrs[len(pred.Instrs)-1].(*ssa.If); ok && isIdxZero(iff.Cond) {
-						onZero = pred.Succs[0] == phi.Block() // direct edge from the test: true side
-						if pred.Succs[1] == phi.Block() {
-							onZero = false
+			for _, a := range m.tr.alts(e.delta, 0) {
+				zero, known, feasible := false, false, true
+				for _, g := range append(append([]gcond{}, siteGuards...), a.conds...) {
+					if z, ok := m.tr.zeroTest(g, idx); ok {
+						if known && z != zero {
+							feasible = false
 						}
-					}
-					z, isZ := constInt(ed)
-					switch {
-					case onZero && isFirst(ed):
-					case !onZero && isZ && z == 0:
-					default:
-						okAll = false
+						zero, known = z, true
 					}
 				}
-				condDelta = okAll
-			}
-			switch {
-			case condDelta:
-			case isFirstVal && guarded && side:
-			case isConst && k == 0 && guarded && !side:
-			case isFirstVal && !guarded:
-				problems = append(problems, "every "+label+" carries the time value: chord tones after the first are delayed")
-			default:
-				problems = append(problems, fmt.Sprintf("%s delta: the op for key 0 must carry %s and all others 0", label, firstValue["midix."+label]))
+				if !feasible {
+					continue
+				}
+				k, isConst := constInt(a.leaf.v)
+				isZeroLeaf := isConst && k == 0
+				switch {
+				case known && zero && isFirst(a.leaf):
+				case known && !zero && isZeroLeaf:
+				case !known && m.carriedFirstThenZero(a.leaf, loop, loc, isFirst):
+				case !known && isFirst(a.leaf):
+					problems = append(problems, "every "+label+" carries the time value: chord tones after the first are delayed")
+				default:
+					problems = append(problems, fmt.Sprintf("%s delta: the op for key 0 must carry %s and all others 0", label, firstName[label]))
+				}
 			}
 		}
-		if loop != nil {
-			mn, mx := pathsSiteCount(loop, siteBlocks)
+		if ph != nil {
+			mn, mx := pathsSiteCount(ph.loop, siteBlocks)
 			if mn != 1 || mx != 1 {
 				problems = append(problems, fmt.Sprintf("an iteration emits between %d and %d %s events (want exactly 1 on every path)", mn, mx, label))
 			}
 			// loop bound: index < len(key)
-			if call, ok := loop.bound.(*ssa.Call); !ok || calleeName(&call.Call) != "builtin.len" || call.Call.Args[0] != ssa.Value(keyParam) {
+			loc := lval{nil, ph.sink.at(ph.level).Parent(), ph.sink.chain[:ph.level]}
+			bl := m.tr.trace(loc.with(ph.loop.bound))
+			if call, ok := bl.v.(*ssa.Call); !ok || calleeName(&call.Call) != "builtin.len" || !isRootParam(bl.with(call.Call.Args[0]), keyParam) {
 				problems = append(problems, label+" loop is not bounded by len(key)")
 			}
 		}
 		sort.Strings(problems)
 		c.check(len(problems) == 0, name+"|"+label, c.pos(fn.Pos()), name, fmt.Sprintf("%d %s site(s): one per key, key[i], channel 0, track i, first carries the time", len(ss), label), strings.Join(uniq(problems), "; "))
-		return loop
+		return ph
 	}
-	lon := checkPhase("NoteOn", ons)
-	loff := checkPhase("NoteOff", offs)
-	if lon != nil && loff != nil {
-		good := lon.header != loff.header && lon.header.Dominates(loff.header) && !lon.blocks[loff.header] && !loff.blocks[lon.header]
+	pon := checkPhase("NoteOn", ons)
+	poff := checkPhase("NoteOff", offs)
+	if pon != nil && poff != nil {
+		good := false
+		if pon.level == poff.level && sameChain(pon.sink.chain[:pon.level], poff.sink.chain[:poff.level]) {
+			lon, loff := pon.loop, poff.loop
+			good = lon.header != loff.header && lon.header.Dominates(loff.header) && !lon.blocks[loff.header] && !loff.blocks[lon.header]
+		} else {
+			// the loops live in different helpers: compare where the two call chains part
+			k := 0
+			for k < len(pon.sink.chain) && k < len(poff.sink.chain) && pon.sink.chain[k] == poff.sink.chain[k] {
+				k++
+			}
+			ia, ib := pon.sink.at(k), poff.sink.at(k)
+			good = ia != ib && ia.Parent() == ib.Parent() && dominatesInstr(ia, ib) && k <= pon.level && k <= poff.level && !shareLoop(ia.Block(), ib.Block())
+		}
 		c.check(good, name+"|order", c.pos(fn.Pos()), name, "all NoteOns (first loop) precede all NoteOffs (second loop)", "the NoteOn loop no longer completes before the NoteOff loop starts: strikes and releases interleave")
 	}
 	// no keys -> error
 	hasGuard := false
-	allInstrs(fn, func(in ssa.Instruction) {
-		if b, ok := in.(*ssa.BinOp); ok && b.Op == token.EQL {
-			if call, ok := b.X.(*ssa.Call); ok && calleeName(&call.Call) == "builtin.len" && call.Call.Args[0] == ssa.Value(keyParam) {
-				hasGuard = true
+	for _, f := range m.regionFuncs(fn) {
+		allInstrs(f, func(in ssa.Instruction) {
+			if b, ok := in.(*ssa.BinOp); ok && (b.Op == token.EQL || b.Op == token.LSS || b.Op == token.LEQ) {
+				if call, ok := b.X.(*ssa.Call); ok && calleeName(&call.Call) == "builtin.len" && f == fn && call.Call.Args[0] == ssa.Value(keyParam) {
+					hasGuard = true
+				}
 			}
-		}
-	})
+		})
+	}
 	c.check(hasGuard, name+"|empty", c.pos(fn.Pos()), name, "a note without keys is an error", "Note no longer refuses an empty key list")
+}
+
+// carriedFirstThenZero: the delta is a loop-carried variable that holds the time value in the first iteration and 0 afterwards
+// (`d := t; for ... { emit(d); d = 0 }`); sound together with the exactly-one-emission-per-iteration check.
+func (m *writerModel) carriedFirstThenZero(l lval, loop *loopInfo, loc lval, isFirst func(lval) bool) bool {
+	phi, ok := l.v.(*ssa.Phi)
+	if !ok || phi.Block() != loop.header || !sameChain(l.chain, loc.chain) {
+		return false
+	}
+	for i, e := range phi.Edges {
+		el := m.tr.trace(l.with(e))
+		if loop.blocks[phi.Block().Preds[i]] {
+			if k, ok := constInt(el.v); !ok || k != 0 {
+				return false
+			}
+		} else if !isFirst(el) {
+			return false
+		}
+	}
+	return true
+}
+
+// shareLoop: some natural loop contains both blocks.
+func shareLoop(a, b *ssa.BasicBlock) bool {
+	for _, h := range a.Parent().Blocks {
+		if bl := naturalLoop(h); bl != nil && bl[a] && bl[b] {
+			return true
+		}
+	}
+	return false
+}
+
+// regionFuncs: the root and every helper looked into.
+func (m *writerModel) regionFuncs(root *ssa.Function) []*ssa.Function {
+	seen := map[*ssa.Function]bool{root: true}
+	out := []*ssa.Function{root}
+	for _, rc := range m.region(root) {
+		if !seen[rc.fn] {
+			seen[rc.fn] = true
+			out = append(out, rc.fn)
+		}
+	}
+	return out
 }
 
 func uniq(ss []string) []string {
@@ -710,16 +714,28 @@ func uniq(ss []string) []string {
 // TICKS
 
 func ruleTicks(c *Ctx) {
-	fn := c.fn("midix", "MIDIWriter.newTicks")
-	if fn == nil {
-		c.missing("midix.MIDIWriter.newTicks")
-	} else {
+	// the value -> ticks conversion is found by its role (an unexported MIDIWriter method float -> integer without side effects), not by name
+	model := c.writerModel()
+	var convs []*ssa.Function
+	for f := range model.conv {
+		convs = append(convs, f)
+	}
+	sort.Slice(convs, func(i, j int) bool { return convs[i].Name() < convs[j].Name() })
+	if len(convs) == 0 {
+		c.site(1)
+		pos := ""
+		if model.typ != nil {
+			pos = c.pos(model.typ.Pos())
+		}
+		c.bad("midix.MIDIWriter|value-to-ticks", pos, "midix.MIDIWriter", "no MIDIWriter method converts a note value to ticks any more (uint32(Round(quarterTicks * value)))")
+	}
+	for _, fn := range convs {
 		c.site(1)
 		name := fname(fn)
 		rets := returnsOf(fn)
 		problem := "more than one return"
 		if len(rets) == 1 {
-			problem = c.checkRounding(fn, rets[0].Results[0])
+			problem = c.checkRounding(fn, retVal(rets[0], 0))
 		}
 		c.check(problem == "", name, c.pos(fn.Pos()), name, "uint32(Round(float64(quarterTicks) * multiplier))", name+": "+problem)
 	}
@@ -1110,49 +1126,49 @@ func ruleSelect(c *Ctx) {
 // OPMAP
 
 func ruleOpMap(c *Ctx) {
-	// writer method -> op type, fields from params
+	// writer method -> op type, fields from its own parameters (by position), delivered as a meta op to one track / every track
 	type wm struct {
 		method, op string
-		fields     map[string]string // field -> parameter name
-		via        string
+		fields     map[string]int // field -> parameter position (receiver = 0)
+		kind       string
 	}
+	model := c.writerModel()
 	for _, m := range []wm{
-		{"Tempo", "midix.MetaTempo", map[string]string{"BPM": "bpm"}, "addMeta"},
-		{"Meter", "midix.MetaMeter", map[string]string{"Num": "num", "Denom": "denom"}, "addMeta"},
-		{"Key", "midix.MetaKey", map[string]string{"Key": "key", "IsMajor": "isMajor", "Num": "num", "IsFlat": "isFlat"}, "addMeta"},
-		{"Text", "midix.MetaText", map[string]string{"Text": "text"}, "addMeta"},
-		{"Lyric", "midix.MetaLyric", map[string]string{"Text": "text"}, "addMeta"},
-		{"Marker", "midix.MetaMarker", map[string]string{"Text": "text"}, "addMeta"},
-		{"Close", "midix.Close", map[string]string{}, "addAll"},
+		{"Tempo", "midix.MetaTempo", map[string]int{"BPM": 1}, "one"},
+		{"Meter", "midix.MetaMeter", map[string]int{"Num": 1, "Denom": 2}, "one"},
+		{"Key", "midix.MetaKey", map[string]int{"Key": 1, "IsMajor": 2, "Num": 3, "IsFlat": 4}, "one"},
+		{"Text", "midix.MetaText", map[string]int{"Text": 1}, "one"},
+		{"Lyric", "midix.MetaLyric", map[string]int{"Text": 1}, "one"},
+		{"Marker", "midix.MetaMarker", map[string]int{"Text": 1}, "one"},
+		{"Close", "midix.Close", map[string]int{}, "all"},
 	} {
 		fn := c.fn("midix", "MIDIWriter."+m.method)
-		if fn == nil {
+		if fn == nil || model.typ == nil {
 			c.missing("midix.MIDIWriter." + m.method)
 			continue
 		}
 		c.site(1)
 		name := fname(fn)
-		sites := emitSites(fn)
-		problem := ""
-		if len(sites) != 1 {
-			problem = fmt.Sprintf("%d emissions, want 1", len(sites))
-		} else {
-			s := sites[0]
-			if s.opType != m.op {
-				problem = fmt.Sprintf("emits %s, want %s", s.opType, m.op)
+		ems, probs := model.emissions(fn)
+		problem := strings.Join(probs, "; ")
+		if len(ems) != 1 {
+			problem = fmt.Sprintf("%d emissions, want 1", len(ems))
+		} else if problem == "" {
+			e := ems[0]
+			if e.opType != m.op {
+				problem = fmt.Sprintf("emits %s, want %s", e.opType, m.op)
 			}
-			if s.via != m.via {
-				problem = fmt.Sprintf("emitted through %s, want %s (signature events must be meta-typed so that they land on track 0; end of track must reach every track)", s.via, m.via)
+			if e.kind != m.kind || e.typKind != "midix.MetaTrack" {
+				problem = fmt.Sprintf("delivered as %s/%s, want %s/midix.MetaTrack (signature events must be meta-typed so that they land on track 0; end of track must reach every track)", e.kind, e.typKind, m.kind)
 			}
-			for f, p := range m.fields {
-				v := stripConv(s.fields[f])
-				par, ok := v.(*ssa.Parameter)
-				if !ok || par.Name() != p {
-					problem = fmt.Sprintf("field %s is not the parameter %s", f, p)
+			for f, idx := range m.fields {
+				fv, ok := e.fields[f]
+				if !ok || len(fv.chain) != 0 || idx >= len(fn.Params) || fv.v != ssa.Value(fn.Params[idx]) {
+					problem = fmt.Sprintf("field %s is not parameter %d of %s", f, idx, m.method)
 				}
 			}
 		}
-		c.check(problem == "", name, c.pos(fn.Pos()), name, m.method+" -> "+m.op+" via "+m.via, name+": "+problem)
+		c.check(problem == "", name, c.pos(fn.Pos()), name, m.method+" -> "+m.op+" ("+m.kind+" track(s), meta)", name+": "+problem)
 	}
 	// op Call methods
 	type om struct {
